@@ -25,6 +25,11 @@ class C18Monitor(Monitor):
         def wrap_transmit(orig):
             def transmit_frame(link, sender_nic, frame):
                 up_at_entry = bool(link.endpoint_a.enabled and link.endpoint_b.enabled)
+                load_at_entry = link.current_load
+                if not up_at_entry:
+                    # the observation point of "nothing crosses a link unless both end interfaces are enabled": a frame
+                    # is being put on a link that is not up (the far end will refuse it, the sender has already counted it)
+                    mon.pending = mon.pending or Violation("C18", "frame-crossed-down-link", f"a frame was put on {link} for transmission while an end interface was disabled", sig="frame-crossed-down-link:attempt", detail={})
                 mon.depth += 1
                 if mon.depth > 1:
                     mon.count("nested_transmissions")
@@ -34,6 +39,9 @@ class C18Monitor(Monitor):
                 finally:
                     mon.depth -= 1
                 mon.count("transmissions")
+                if not up_at_entry and link.current_load > load_at_entry:
+                    # whatever the far end did with it: a frame was put on a link that is not up (its load went up)
+                    mon.pending = mon.pending or Violation("C18", "frame-crossed-down-link", f"a frame was put on {link} while an end interface was disabled (load {load_at_entry!r} -> {link.current_load!r})", sig="frame-crossed-down-link:load", detail={})
                 if ok and not up_at_entry:
                     mon.pending = Violation("C18", "frame-crossed-down-link", f"frame delivered over {link} while an end interface was disabled", sig="frame-crossed-down-link", detail={})
                 if link.current_load > link.bandwidth:
